@@ -55,6 +55,8 @@ def generate(rng, idx, tier, variant):
     for _ in range(rng.choice([1, 1, 2, 3])):
         opts = S.gen_opts(rng, False)
         opts['errors'] = 'raise'
+        if opts['max_iter'] > 300:
+            opts['max_iter'] = rng.choice([255, 256, 300, 1000])  # (every iteration drives every submodel and hook here)
         if opts['min_iter'] > opts['max_iter']:
             opts['min_iter'] = opts['max_iter']
         opts['tol'] = rng.choice([1e-10, 2.0**-10, 0.5, 1.0, 2.0, 4.0, 0, 2.0**-30])
@@ -788,6 +790,35 @@ def do_parser_twin(fsic, spec, op, ctx, chk):
     want = (max(mdl['lags'] for mdl in op['models']), max(mdl['leads'] for mdl in op['models']))
     ctx.probe('linker-over-parser-built-models')
     chk('construction/lags-leads-are-maxima', (both.LAGS, both.LEADS) == want and (both.lags, both.leads) == want, {'got': [both.LAGS, both.LEADS], 'want': list(want), 'scripts': [mdl['script'][:120] for mdl in op['models']]})
+    # two instances of one class (holding different data) in one linker, against the same two built from classes of
+    # their own: what one submodel computes must not depend on the other being of the same class
+    try:
+        twinA, twinB = (fsic.build_model(fsic.parse_model(m0['script']), **(m0.get('build') or {})) for _ in range(2))
+        same_cls = fsic.BaseLinker({'A': fresh(classes[0], m0), 'B': fresh(classes[0], m0)})
+        own_cls = fsic.BaseLinker({'A': fresh(twinA, m0), 'B': fresh(twinB, m0)})
+        for lk in (same_cls, own_cls):
+            b_ = lk.submodels['B'].__dict__
+            for nm_ in b_['index']:
+                if b_['_' + nm_].dtype.kind == 'f':
+                    b_['_' + nm_][:] = b_['_' + nm_] * 1.5 + 1.0
+        kw_ = {k_: v_ for k_, v_ in S.solver_kwargs(op['opts']).items() if k_ not in ('errors', 'catch_first_error')}
+        kw_.update(failures='ignore', offset=0, max_iter=min(int(kw_.get('max_iter', 5)), 6), min_iter=0)
+        import warnings as _w2
+
+        with _w2.catch_warnings():
+            _w2.simplefilter('ignore')
+            outs = []
+            for lk in (same_cls, own_cls):
+                try:
+                    outs.append(('return', canon(lk.solve(**kw_)[2])))
+                except Exception as ex_:
+                    outs.append(('raise', type(ex_).__name__))
+        cells_ = [(sid_, c_) for sid_ in ('A', 'B') for c_ in ref_solver.diff_cells(ref_solver.snapshot(same_cls.submodels[sid_]), ref_solver.snapshot(own_cls.submodels[sid_]))]
+        ctx.probe('linker-over-two-instances-of-one-class')
+        chk('submodels-of-one-class/solve-as-submodels-of-classes-of-their-own', outs[0] == outs[1] and not cells_, {'outcomes': outs, 'differs': cells_[:6], 'script': m0['script'][:200]})
+        ctx.check('C11', 'linker/submodels-of-one-class-observe-each-other', outs[0] == outs[1] and not cells_, {'outcomes': outs, 'differs': cells_[:6], 'script': m0['script'][:200]})
+    except probes.SimInterrupt:
+        raise
     bare, inner = fresh(classes[0], m0), fresh(classes[0], m0)
     LK = fsic.BaseLinker({'A': inner})
     opts = S.solver_kwargs(op['opts'])
